@@ -9,6 +9,9 @@ package path
 // Environment: C16_BOUND (token count, default 4), C16_OUT (file for the JSON summary).
 
 import (
+	"github.com/aml-org/amf-custom-validator/internal/misc"
+	"github.com/aml-org/amf-custom-validator/internal/types"
+
 	"encoding/json"
 	"fmt"
 	"os"
@@ -305,6 +308,30 @@ func TestBoundedC16(t *testing.T) {
 		}
 		check("ns." + strings.Repeat("x", n*8))
 		check(strings.Repeat("n", n*8) + ".p" + strings.Repeat(" ", n) + "^")
+	}
+	// every IRI the grammar accepts as a step must also be expandable once its prefix is declared (the expander has its own
+	// pattern for compact IRIs: a step that parses but cannot be expanded makes a well-formed profile fail)
+	for _, pre := range []string{"a", "Z9", "x_1", "my-ns", "0", "_", "-a", "oas3", "v1-beta", "A_B-c9"} {
+		for _, suf := range []string{"b", "B2", "p_q", "p-q", "a.b", "a\\/b", "0", "_x", "-y", "x9_-.z"} {
+			iri := pre + "." + suf
+			sum.Strings++
+			if _, ok := oracle(iri); !ok {
+				continue
+			}
+			sum.Sentences++
+			exp := misc.IriExpander{Context: types.ObjectMap{pre: "http://ns.example/"}}
+			got, err := exp.Expand(iri)
+			if err == nil && got == "http://ns.example/"+strings.ReplaceAll(suf, "\\/", "/") {
+				sum.Agree++
+				continue
+			}
+			class := "sentence-not-expandable"
+			sum.Differences[class]++
+			if len(sum.Examples[class]) < 12 {
+				sum.Examples[class] = append(sum.Examples[class], fmt.Sprintf("%q is a step of the grammar but expands to %q, %v (prefix %s declared as http://ns.example/)", iri, got, err, pre))
+			}
+			sum.AllDiffs = append(sum.AllDiffs, class+"\t"+iri)
+		}
 	}
 	b, _ := json.Marshal(sum)
 	if out := os.Getenv("C16_OUT"); out != "" {
